@@ -183,7 +183,7 @@ class C03(Check):
             'included) x both chunk-size conventions. Sub-space "meta": all sequences of <=3 (quick) / <=4 (thorough) '
             'metadata/log blocks over 7 kinds (dyld modules, trace codes, processes, kexts, images, log events, unknown tag) '
             'with occurrence-numbered payloads, the string index placed at every position, x thread maps (4) x gap bytes after '
-            'MORE_EVENTS (4). Sub-space "blocks": every filler length 362..531, 3946..4115, 8042..8211 before the stackshot sentinel, before the thread-map tag and after MORE_EVENTS (a tag at / across every 512/4096/8192-byte block boundary). Sub-space "tagged": records whose first bytes are container tags / the v3 magic, in every position and chunking. Sub-space "order": records with equal and decreasing timestamps in every order and chunking stay in file order. Sub-space "cli": the processes / kexts / images commands print the sections as JSON. Sub-space "long": 64/513/1500 records in 1..3 chunks. Sub-space "reuse": ONE parser object parses '
+            'MORE_EVENTS (4). Sub-space "blocks": every filler length 362..531, 3946..4115, 8042..8211 before the stackshot sentinel, before the thread-map tag and after MORE_EVENTS (a tag at / across every 512/4096/8192-byte block boundary). Sub-space "tagged": records whose first bytes are container tags / the v3 magic, in every position and chunking. Sub-space "order": records with equal and decreasing timestamps in every order and chunking stay in file order. Sub-space "cli": the processes / kexts / images commands print the sections as JSON. Sub-space "long": 2^k-1, 2^k, 2^k+1 records (k = 6..12) in 1..3 chunks. Sub-space "reuse": ONE parser object parses '
             'two dumps in turn (6 x 6 block sequences x 3 map pairs); the second parse must leave the second dump\'s metadata only. Oracle: events all/in order/== independent decode/before any log; tables after the thread-map '
             'chunk and after logs; list-valued sections concatenated in file order; scalar sections equal one of their '
             'payloads; logs in order with strings resolved. non-trivial = >=2 chunks or >=2 blocks. states = distinct '
@@ -223,7 +223,7 @@ class C03(Check):
                                 self._one(acc, dict(DEFAULT, cpu_len=cpu_len, f1=f1, f2=f2, nrec=m, comp=comp, with8=with8,
                                                     kseq=('codes',)), nontrivial=k >= 2)
         elif desc[0] == 'long':
-            for n in (64, 513, 1500):
+            for n in sorted({2 ** k + d for k in range(6, 13) for d in (-1, 0, 1)} | {1500}):
                 recs = [B.rec(1000 + i, (i, i * 3, 7, 9), 1 + i % 3, 0x040c0004 | (i % 4)) for i in range(n)]
                 for comp in ((n,), (1, n - 1), (n // 2, 0, n - n // 2), (n - 1, 1)):
                     chunks, i = [], 0
